@@ -376,10 +376,10 @@ def _z3v():
 
 
 def replay_file(prop, path):
+    global _PROP
     payload = json.load(open(path))
     if payload.get('kind') == 'bounded':
         env.ensure_repo_importable()
-        global _PROP
         _PROP = prop
         status, case, res, secs = _run_one(payload['case'])
         if status == 'error':
@@ -390,6 +390,19 @@ def replay_file(prop, path):
         bad = [(c, d) for c, ok, d in res if not ok]
         print(json.dumps(jsonable(dict(case=payload['case'], failing_clauses=bad)), indent=1, default=str))
         return 1 if bad else 0
-    print(json.dumps(payload, indent=1))
     rp = payload.get('replay') or {}
+    if isinstance(rp.get('case'), dict):
+        # the counter-model was concretised into a case of the bounded harness: run it again on the current tree
+        env.ensure_repo_importable()
+        _PROP = prop
+        status, case, res, secs = _run_one(rp['case'])
+        if status == 'error':
+            print('CHECK-ERROR while replaying: %s' % res)
+            return 3
+        if status == 'raised-in-repo':
+            res = [('completes-without-error', False, dict(exception=res.splitlines()[0]))]
+        bad = [(c, d) for c, ok, d in res if not ok]
+        print(json.dumps(jsonable(dict(obligation=payload.get('obligation'), case=rp['case'], failing_clauses=bad)), indent=1, default=str))
+        return 1 if bad else 0
+    print(json.dumps(payload, indent=1))
     return 1 if rp.get('reproduced') else 0
